@@ -357,7 +357,7 @@ pub fn run_c10(args: &Args, report: &mut Report) {
         Some(true) => 3,
         Some(false) => 24,
         None if args.thorough => 260,
-        None => 26,
+        None => 40,
     };
     for case in 0..cases {
         let mut crng = rng.fork(case);
@@ -537,7 +537,7 @@ struct SideCase {
 
 pub fn run_c11(args: &Args, report: &mut Report) {
     let rng = Rng::new(args.seed).fork(0xC11).fork(args.shard);
-    let cases = if args.thorough { 200 } else { 22 };
+    let cases = if args.thorough { 200 } else { 32 };
     for case in 0..cases {
         let mut crng = rng.fork(case);
         let kind = *crng.pick(&[SideKind::Merge, SideKind::Merge, SideKind::Join, SideKind::Zip]);
